@@ -95,17 +95,37 @@ def gen_block(rng, counter, depth, unicode_ok):
             block['link'] = gen_link(rng, counter)
         if rng.random() < 0.04:
             block['string_label'] = rng.choice(['Custom é', 'x', 'Two words'])
-    elif k < 0.85 or depth >= 2:
+        # bookmarked ::before / ::after boxes (their own de-duplication lists in layout_document)
+        block['pseudo'] = []
+        for which in ('before', 'after'):
+            if rng.random() < 0.07:
+                block['pseudo'].append({'which': which, 'level': rng.randint(1, 7), 'label': f'{which} {block["k"]}',
+                                        'words': gen_words(rng, rng.choice([1, 2, 12]))})
+    elif k < 0.8 or depth >= 2:
         items = []
         for _ in range(rng.choice([1, 1, 2, 3, 5])):
-            if rng.random() < 0.6:
+            r = rng.random()
+            if r < 0.55:
                 items.append(gen_link(rng, counter))
+            elif r < 0.65:
+                # an inline bookmarked element: one box per line it spans, all carrying the label
+                items.append({'k': next(counter), 'span': True, 'level': rng.randint(1, 7),
+                              'state': 'closed' if rng.random() < 0.25 else 'open',
+                              'words': gen_words(rng, rng.choice([1, 3, 8, 20]))})
             else:
                 items.append({'words': gen_words(rng, rng.randint(1, 4))})
         block.update(kind='para', items=items)
     else:
-        block.update(kind='wrapper', transform=rng.choice(TRANSFORMS)[0] if rng.random() < 0.8 else None,
-                     blocks=[gen_block(rng, counter, depth + 1, unicode_ok) for _ in range(rng.randint(1, 3))])
+        bookmarked = rng.random() < 0.6
+        block.update(kind='wrapper', transform=rng.choice(TRANSFORMS)[0] if rng.random() < (0.2 if bookmarked else 0.8)
+                     else None, bm=None,
+                     blocks=[gen_block(rng, counter, depth + 1, unicode_ok)
+                             for _ in range(rng.randint(2, 6) if bookmarked else rng.randint(1, 3))])
+        if bookmarked:
+            # a bookmarked container (chapter) around bookmarked headings: it continues on the next pages
+            # *after* other bookmarked elements
+            block['bm'] = {'level': rng.randint(1, 4), 'state': 'closed' if rng.random() < 0.25 else 'open',
+                           'label': rng.choice(['Chapter', 'Part é', 'A (b)']) + f' {block["k"]}'}
     return block
 
 
@@ -163,6 +183,26 @@ def link_html(link):
     return f'<a {" ".join(attrs)}>{html_mod.escape(" ".join(link["words"]))}</a>'
 
 
+def item_html(item):
+    if 'href' in item:
+        return link_html(item)
+    text = html_mod.escape(' '.join(item['words']))
+    if item.get('span'):
+        state = ';bookmark-state:closed' if item['state'] == 'closed' else ''
+        return (f'<span data-k="{item["k"]}" style="bookmark-level:{item["level"]};bookmark-label:content(text)'
+                f'{state}">{text}</span>')
+    return text
+
+
+def pseudo_css(spec):
+    rules = []
+    for block in walk_blocks(spec['blocks']):
+        for pseudo in block.get('pseudo') or ():
+            rules.append(f'[data-k="{block["k"]}"]::{pseudo["which"]}{{content:"{" ".join(pseudo["words"])} ";'
+                         f'bookmark-level:{pseudo["level"]};bookmark-label:"{pseudo["label"]}"}}')
+    return ''.join(rules)
+
+
 def block_html(block):
     styles, attrs = [], [f'data-k="{block["k"]}"']
     if block['break_before']:
@@ -185,10 +225,15 @@ def block_html(block):
             words += ' ' + link_html(block['link'])
         inner, tag = words, block['tag']
     elif block['kind'] == 'para':
-        inner = ' '.join(link_html(i) if 'href' in i else html_mod.escape(' '.join(i['words'])) for i in block['items'])
+        inner = ' '.join(item_html(i) for i in block['items'])
         tag = 'p'
     else:
         inner, tag = ''.join(block_html(b) for b in block['blocks']), 'div'
+        if block.get('bm'):
+            attrs.append(f'title="{attr(block["bm"]["label"])}"')
+            styles.append(f'bookmark-level:{block["bm"]["level"]};bookmark-label:attr(title)')
+            if block['bm']['state'] == 'closed':
+                styles.append('bookmark-state:closed')
     if styles:
         attrs.append(f'style="{";".join(styles)}"')
     return f'<{tag} {" ".join(attrs)}>{inner}</{tag}>'
@@ -204,7 +249,7 @@ def doc_html(spec):
     lang = '' if spec['lang'] is None else f' lang="{attr(spec["lang"])}"'
     style = (f'@page{{size:{spec["width"]}px {spec["height"]}px;margin:{spec["margin"]}px}}'
              'body{margin:0;font:20px/20px weasyprint}'
-             'h1,h2,h3,h4,h5,h6,p,div{display:block;font-size:20px;margin:0;font-weight:normal}')
+             'h1,h2,h3,h4,h5,h6,p,div{display:block;font-size:20px;margin:0;font-weight:normal}' + pseudo_css(spec))
     return (f'<!DOCTYPE html><html{lang}><head>{"".join(head)}<style>{style}</style></head><body>'
             f'{"".join(block_html(b) for b in spec["blocks"])}</body></html>')
 
@@ -227,9 +272,31 @@ def heading_label(block):
     return ' '.join(words)
 
 
+def spec_bookmarks(spec):
+    """Every bookmarked element (and pseudo-element) in document order:
+    {level, label, state, k: data-k of the element, or None for a pseudo-element}."""
+    out = []
+    for b in walk_blocks(spec['blocks']):
+        if b['kind'] == 'heading':
+            pseudo = {p['which']: p for p in b.get('pseudo') or ()}
+            if not b['no_bookmark']:
+                out.append({'level': b['level'], 'label': heading_label(b), 'state': b['state'], 'k': b['k']})
+            for which in ('before', 'after'):      # ::before box first, ::after box last, both inside the element
+                if which in pseudo:
+                    entry = {'level': pseudo[which]['level'], 'label': pseudo[which]['label'], 'state': 'open', 'k': None}
+                    out.append(entry)
+        elif b['kind'] == 'wrapper' and b.get('bm'):
+            out.append(dict(b['bm'], k=b['k']))
+        elif b['kind'] == 'para':
+            for item in b['items']:
+                if item.get('span'):
+                    out.append({'level': item['level'], 'label': ' '.join(item['words']), 'state': item['state'],
+                                'k': item['k']})
+    return out
+
+
 def spec_headings(spec):
-    return [(b['level'], heading_label(b), b['state']) for b in walk_blocks(spec['blocks'])
-            if b['kind'] == 'heading' and not b['no_bookmark']]
+    return [(b['level'], b['label'], b['state']) for b in spec_bookmarks(spec)]
 
 
 def spec_links(spec):
@@ -512,8 +579,13 @@ def add_document_cases(secs, spec, run, stats):
 
     # one bookmark per element
     items, kept = watch_items(document)
-    secs['watch'].add(sx.line('watch', items), sx.dumps(kept), meta=meta, nontrivial=split > 0,
-                      tags=['split' if split else 'nosplit'])
+    interleaved = any(items[i] in items[:i] and items[i - 1] != items[i] for i in range(1, len(items)))
+    watch_tags = ['split' if split else 'nosplit']
+    if interleaved:
+        watch_tags.append('fragments-interleaved-with-other-bookmarks')
+    if any(item[1] != 'none' for item in items):
+        watch_tags.append('pseudo-element')
+    secs['watch'].add(sx.line('watch', items), sx.dumps(kept), meta=meta, nontrivial=split > 0, tags=watch_tags)
 
     # outline structure from the generated document
     secs['structure'].add(sx.line('docoutl', [[lvl, esc(lab), esc(st)] for lvl, lab, st in headings]),
@@ -584,8 +656,10 @@ def document_sections(prop, run):
             'doc-bookmark-tree', 'Document.make_bookmark_tree(scale, False/True) of rendered documents; non-trivial = '
             'at least 3 headings over at least 2 pages'),
         'watch': run.section(
-            'doc-one-per-element', 'which boxes keep their bookmark label after layout_document; non-trivial = a '
-            'heading is split over pages (a later fragment loses its label)'),
+            'doc-one-per-element', 'which boxes keep their bookmark label after layout_document (headings, bookmarked '
+            'containers around bookmarked headings, inline bookmarked spans over several lines, ::before/::after '
+            'bookmarks, all split over lines and pages); non-trivial = some element has several labelled boxes (a later '
+            'fragment loses its label)'),
         'structure': run.section(
             'doc-outline-structure', '/Outlines of the written PDF (walked through First/Next, Prev/Last/Parent checked) '
             'against the outline computed from the headings of the generated document; non-trivial = at least 3 '
@@ -692,11 +766,13 @@ def oracle(spec):
         for box in page._page_box.descendants():
             if box.element is not None and box.element.get('data-k') is not None:
                 first_page.setdefault(int(box.element.get('data-k')), index)
-    heading_blocks = [b for b in walk_blocks(spec['blocks']) if b['kind'] == 'heading' and not b['no_bookmark']]
+    heading_blocks = spec_bookmarks(spec)
     for number, block in zip(pdf.outline_objects(), heading_blocks):
+        if block['k'] is None:
+            continue
         dest_page = pdf.page_numbers.index(int(pdf.objects[number]['Dest'][0]))
         if dest_page != first_page.get(block['k']):
-            return (f'outline {heading_label(block)!r} points to page {dest_page}, its element starts on page '
+            return (f'outline {block["label"]!r} points to page {dest_page}, its element starts on page '
                     f'{first_page.get(block["k"])}'), None
     # … and, when no transform is in force anywhere, to the top-left corner of its first box
     plain = not has_transform(spec)
@@ -708,16 +784,17 @@ def oracle(spec):
         first_box = {}
         for page in document.pages:
             for box in page._page_box.descendants():
-                if box.element is not None and box.element.get('data-k') is not None and box.bookmark_label:
+                if (box.element is not None and box.element.get('data-k') is not None and box.bookmark_label and
+                        '::' not in box.element_tag):
                     first_box.setdefault(int(box.element.get('data-k')), (page, box))
         for number, block in zip(pdf.outline_objects(), heading_blocks):
-            if block['k'] not in first_box:
+            if block['k'] is None or block['k'] not in first_box:
                 continue
             page, box = first_box[block['k']]
             dest = pdf.objects[number]['Dest']
             want = to_pdf(page, *box.hit_area()[:2])
             if (dest[2], dest[3]) != want:
-                return (f'outline {heading_label(block)!r} points to {(dest[2], dest[3])}; the top-left corner of its '
+                return (f'outline {block["label"]!r} points to {(dest[2], dest[3])}; the top-left corner of its '
                         f'element is at {want} (PDF points)'), None
     # (2) links
     links_wire, dests_wire = sx.loads_line(pdf.links_wire())
@@ -862,11 +939,56 @@ def _pdf_date(s):
     return out
 
 
+def shrink(spec, budget=40):
+    """Greedy reduction of a failing document: drop blocks (top level, then inside containers), head
+    elements, while the oracle still reports a failure that is not a known finding."""
+    import copy
+
+    def fails(candidate):
+        try:
+            found = oracle(copy.deepcopy(candidate))
+        except Exception:  # noqa: BLE001
+            return False
+        return bool(found and found[1] is None)
+
+    def block_lists(sp):
+        yield sp['blocks']
+        for block in walk_blocks(sp['blocks']):
+            if block['kind'] == 'wrapper':
+                yield block['blocks']
+    spec = copy.deepcopy(spec)
+    if spec['head']:
+        candidate = dict(spec, head=[])
+        budget -= 1
+        if fails(candidate):
+            spec = candidate
+    progress = True
+    while progress and budget > 0:
+        progress = False
+        for index, blocks in enumerate(list(block_lists(spec))):
+            i = len(blocks) - 1
+            while i >= 0 and budget > 0:
+                candidate = copy.deepcopy(spec)
+                target = list(block_lists(candidate))[index]
+                del target[i]
+                budget -= 1
+                if fails(candidate):
+                    spec = candidate
+                    blocks = list(block_lists(spec))[index]
+                    progress = True
+                i -= 1
+    return spec
+
+
 def judge(meta, d):
     if 'spec' not in meta:
         return None
     found = oracle(_revive_spec(meta['spec']))
     if found and found[1] is None:
+        small = shrink(meta['spec'])
+        again = oracle(small)
+        if again and again[1] is None:
+            return f'{again[0]}  [reduced document: {doc_html(small)}]'
         return found[0]
     return None
 
